@@ -2,7 +2,7 @@
    and the loop body of New. *)
 From Coq Require Import ZArith List Bool Arith Lia Permutation.
 Import ListNotations.
-From Mds Require Import Gen.RingIdx Ring.RingModel Ring.RingSpec Ring.RingProofsBase.
+From Mds Require Import Gen.RingIdx Ring.RingBase Ring.RingPlain Ring.RingSpec Ring.RingProofsBase.
 
 Section RepSec.
 Variable T : Type.
